@@ -7,12 +7,15 @@ import Driver.Util
 `res a p ok|err`, `resl a p`, `pub a p`, `enqc a p c`, `resu a p`, `newx a p`, `syw a p`, `sywd a p`).
 
 The log is a linearisation up to the lag between an operation and its log record; records of
-one goroutine are in program order. The replay therefore takes, at each point, the earliest
-pending record that is the first pending one of its goroutine and is enabled in the current
-model state (`stepB … = some _`); if none is enabled the trace is rejected.
+one goroutine are in program order. The replay therefore searches (depth first, candidates in log
+order, bounded budget) for an interleaving of the per-goroutine record sequences in which every
+record is enabled in the model state it meets (`stepB … = some _`); if there is none the trace is
+rejected and the deepest state reached is reported.
 
 answer: `ok steps=… skips=… queue=… tasks=… finished=… waiting=… lost=… busy=a:state,…`
-        `rej at=<k> ev=<event> actor=<state> queue=… | <first pending events>`
+        `rej why=protocol|order|budget at=<k> ev=<event> actor=<state> queue=… | <first pending events>`
+        (protocol: the goroutine of `ev` is in a control state in which it can never do `ev`;
+         order: no interleaving exists; budget: the search budget ran out — inconclusive)
 `lost` counts tasks registered on a settled promise whose mutex is free (must be 0);
 `busy` lists the goroutines that are not idle in the final state (blocked ones after a hang). -/
 namespace Driver.Dom.Promise
@@ -67,25 +70,94 @@ def showAState : AState → String
   | .resPub _ p _ => s!"resPub({p})"
   | .resEnq p rest => s!"resEnq({p},{rest.length})"
 
-/-- find the earliest pending event that is first of its actor and enabled; returns
-    (new state, remaining pending in order, how many records were skipped over) -/
-def pick (N Q : Nat) (s : Sys) : List Event → List Nat → List Event → Option (Sys × List Event × Nat)
-  | [], _, _ => none
+/-- the pending records that are the first pending one of their goroutine, each with the list that
+    remains when it is taken out (log order is kept) -/
+def candidates : List Event → List Nat → List Event → List (Event × List Event)
+  | [], _, _ => []
   | e :: rest, seen, skippedRev =>
-    if seen.contains e.actor then pick N Q s rest seen (e :: skippedRev)
-    else match stepB N Q s e with
-      | some s' => some (s', skippedRev.reverse ++ rest, skippedRev.length)
-      | none => pick N Q s rest (e.actor :: seen) (e :: skippedRev)
+    if seen.contains e.actor then candidates rest seen (e :: skippedRev)
+    else (e, skippedRev.reverse ++ rest) :: candidates rest (e.actor :: seen) (e :: skippedRev)
 
-def replay (N Q : Nat) : Nat → Sys → List Event → Nat → Nat → Except (Nat × Sys × List Event) (Sys × Nat × Nat)
-  | 0, s, pending, steps, skips => if pending.isEmpty then .ok (s, steps, skips) else .error (steps, s, pending)
-  | fuel + 1, s, pending, steps, skips =>
-    match pending with
-    | [] => .ok (s, steps, skips)
-    | _ =>
-      match pick N Q s pending [] [] with
-      | some (s', pending', k) => replay N Q fuel s' pending' (steps + 1) (skips + k)
-      | none => .error (steps, s, pending)
+structure Found where
+  final : Sys
+  steps : Nat
+  skips : Nat
+
+/-- the part of a guard that only depends on the goroutine's own control state: no step of another
+    goroutine can make it true, so a record that fails it can never be replayed -/
+def localOk (N : Nat) (s : Sys) : Event → Bool
+  | .add a _ | .newx a _ | .syw a _ => (starter N s a).isSome
+  | .enq a c => match s.act a with | .add _ c' => c' == c | _ => false
+  | .deq a _ => s.act a == .idle && a < N
+  | .aw a _ => match s.act a with | .run _ => true | _ => false
+  | .awl a p => match s.act a with | .awLock _ p' => p' == p | _ => false
+  | .aws a p | .awr a p => match s.act a with | .awTest _ p' => p' == p | _ => false
+  | .reg a p => match s.act a with | .awSusp _ p' => p' == p | _ => false
+  | .unl a p => match s.act a with | .awUnl p' => p' == p | _ => false
+  | .res a p _ => match s.act a with | .run t => t == p | .idle => N ≤ a | _ => false
+  | .resl a p => match s.act a with | .resLock _ p' _ => p' == p | _ => false
+  | .pub a p => match s.act a with | .resPub _ p' _ => p' == p | _ => false
+  | .enqc a p c => match s.act a with | .resEnq p' (c' :: _) => p' == p && c' == c | _ => false
+  | .resu a p => match s.act a with | .resEnq p' [] => p' == p | _ => false
+  | .sywd a p => match s.act a with | .wait _ p' => p' == p | _ => false
+
+/-- does candidate `h` help the blocked record `e` (make its global guard true)? -/
+def helps (s : Sys) (e h : Event) : Bool :=
+  match e with
+  | .deq _ t => match h with | .enq _ c => c == t | .enqc _ _ c => c == t | _ => false
+  | .enq _ _ | .enqc _ _ _ => match h with | .deq _ _ => true | _ => false
+  | .awl _ p | .resl _ p => (s.prom p).locked == some h.actor
+  | .awr _ p | .sywd _ p => match h with | .pub _ p' => p' == p | .resl _ p' => p' == p | _ => false
+  | _ => false
+
+/-- candidates in the order they are tried: the head if it is enabled, else its helpers first -/
+def ordered (N Q : Nat) (s : Sys) (cands : List (Event × List Event)) : List (Event × List Event) :=
+  match cands with
+  | [] => []
+  | (e, r) :: cs =>
+    if (stepB N Q s e).isSome then cands
+    else
+      let hs := cs.filter fun c => helps s e c.1
+      let os := cs.filter fun c => !helps s e c.1
+      hs ++ os ++ [(e, r)]
+
+/-- depth-first search for a linearisation; `budget` bounds the number of attempted steps. Returns the
+    result, the budget left and the deepest state reached (for the diagnosis). A record whose
+    goroutine-local guard fails ends the search at once (`hard`). -/
+def search (N Q : Nat) (d : Nat) (s : Sys) (cands : List (Event × List Event)) (k : Nat) (steps skips budget : Nat)
+    (best : Nat × Sys × List Event) : Option Found × Nat × (Nat × Sys × List Event) :=
+  match d, cands with
+  | 0, _ => (none, budget, best)
+  | _, [] => (none, budget, best)
+  | d' + 1, (e, rest) :: cs =>
+    if budget = 0 then (none, 0, best) else
+    match stepB N Q s e with
+    | some s' =>
+      let best' := if steps + 1 > best.1 then (steps + 1, s', rest) else best
+      if rest.isEmpty then (some ⟨s', steps + 1, skips + k⟩, budget - 1, best')
+      else
+        match search N Q d' s' (ordered N Q s' (candidates rest [] [])) 0 (steps + 1) (skips + k) (budget - 1) best' with
+        | (some r, b, bb) => (some r, b, bb)
+        | (none, b, bb) => search N Q (d' + 1) s cs (k + 1) steps skips b bb
+    | none => search N Q (d' + 1) s cs (k + 1) steps skips (budget - 1) best
+termination_by (d, cands.length)
+
+/-- first pending record (of any goroutine) that can never be replayed -/
+def hardFail (N : Nat) (s : Sys) (pending : List Event) : Option Event :=
+  ((candidates pending [] []).find? fun c => !localOk N s c.1).map (·.1)
+
+inductive Verdict where
+  | ok (s : Sys) (steps skips : Nat)
+  | rej (steps : Nat) (s : Sys) (pending : List Event) (why : String)
+
+def replay (N Q : Nat) (es : List Event) : Verdict :=
+  if es.isEmpty then .ok init 0 0 else
+  match search N Q (es.length + 1) init (ordered N Q init (candidates es [] [])) 0 0 0 (300000 + 100 * es.length) (0, init, es) with
+  | (some r, _, _) => .ok r.final r.steps r.skips
+  | (none, b, (k, s, pending)) =>
+    match hardFail N s pending with
+    | some e => .rej k s (e :: pending) "protocol"     -- the goroutine is not in a state in which it can do this
+    | none => .rej k s pending (if b = 0 then "budget" else "order")
 
 def actorsOf (es : List Event) : List Nat := (es.map Event.actor).eraseDups
 
@@ -111,11 +183,11 @@ def handle : List String → String
     | some N, some Q, some es =>
       let acts := actorsOf es
       let ids := idsOf es
-      match replay N Q (es.length + 1) init es 0 0 with
-      | .ok (s, steps, skips) => s!"ok steps={steps} skips={skips} " ++ summary s acts ids
-      | .error (k, s, pending) =>
+      match replay N Q es with
+      | .ok s steps skips => s!"ok steps={steps} skips={skips} " ++ summary s acts ids
+      | .rej k s pending why =>
         let e := pending.headD (.add 0 0)
-        s!"rej at={k} ev={showEvent e} actor={showAState (s.act e.actor)} " ++ summary s acts ids ++
+        s!"rej why={why} at={k} ev={showEvent e} actor={showAState (s.act e.actor)} " ++ summary s acts ids ++
           " | " ++ joinWith ";" ((pending.take 6).map showEvent)
     | _, _, _ => "bad-op"
   | _ => "bad-op"
